@@ -76,6 +76,7 @@ Definition w_wdev := [119;100;101;118].
 Definition w_locale := [108;111;99;97;108;101].
 Definition w_global := [103;108;111;98;97;108].
 Definition w_locq := [108;111;99;113].
+Definition w_readck := [114;101;97;100;99;107].
 
 (* does the directory part of [path] exist in the virtual file system?  (a directory entry, or the
    prefix of some stored file) *)
@@ -150,7 +151,12 @@ Definition run_line (w : world) (ln : bytes) : world * list bytes * bool :=
              | StopFatal _ => [82;32;102;97;116;97;108] | StopStuck => [82;32;115;116;117;99;107] end], false)
       else api tt
   | [cmd; sub; p] =>
-      if is_w cmd w_locale then
+      if is_w cmd w_readck then
+        (* config_read from a stream that delivers its data in the given chunk sizes: same bytes *)
+        let '(r, l') := with_locale true (w_loc w)
+                          (fun radix => config_read (atof_radix atof radix) (w_fs w) c None (hs_or_empty (parse_hs p))) in
+        (mkWl (rd_cfg r) (w_fs w) l', show_rd r, is_exit r)
+      else if is_w cmd w_locale then
         let l := w_loc w in
         let radix_of := fun nm : bytes => match nm with 120 :: _ => 44 | _ => 46 end in      (* "xx_XX.utf8": comma *)
         if is_w sub w_global then
